@@ -229,6 +229,13 @@ def random_input(rng, nd=3, ns=3):
     lazy = rng.random() < 0.5
     use_async = rng.random() < 0.35
     ops = [{"op": "declare", "s": s, "ds": g, "f": []} for s, g in decl.items()]
+    # a detector that is alone in its stream may also hand back events (PagedDet: not WritesStreamAssets); its collects then
+    # carry return_payload=True/False -- the specification is the same (one detector, no index passed down)
+    paged_streams = set()
+    for o in ops:
+        if len(o["ds"]) == 1 and o["ds"][0] not in greedy and rng.random() < 0.4:
+            o["paged"] = True
+            paged_streams.add(o["s"])
     careful = rng.random() < 0.5          # a checkpoint after every collect: pauses are then harmless
     n = rng.randint(6, 18)
     since_ckpt = False
@@ -242,6 +249,8 @@ def random_input(rng, nd=3, ns=3):
             ds = decl[s][:]
             rng.shuffle(ds)
             ops.append({"op": "collect", "s": s, "ds": ds, "f": []})
+            if s in paged_streams:
+                ops[-1]["payload"] = rng.random() < 0.5
             since_ckpt = True
             if careful:
                 ops.append({"op": "checkpoint", "s": "", "ds": [], "f": []})
